@@ -807,6 +807,8 @@ impl LdapConnAsync {
     }
 
     async fn turn(mut self, mode: LoopMode) -> Result<Self> {
+        // In single-op mode the turn is over when the operation's result has been delivered.
+        let mut single_done = false;
         loop {
             tokio::select! {
                 req_id = self.id_scrub_rx.recv() => {
@@ -908,6 +910,15 @@ impl LdapConnAsync {
                         Some(Ok((id, _))) => verif_trace(format!("drv resp {}", id)),
                     }
                     let (id, (tag, controls)) = match resp {
+                        // While a single operation (StartTLS) is awaiting its response, the end
+                        // of the stream is an error: returning the connection would keep the
+                        // operation's result sender alive and its caller waiting forever.
+                        None if matches!(mode, LoopMode::SingleOp) => {
+                            return Err(LdapError::from(io::Error::new(
+                                io::ErrorKind::UnexpectedEof,
+                                "connection closed",
+                            )));
+                        }
                         None => break,
                         Some(Err(e)) => {
                             warn!("socket receive error: {}", e);
@@ -959,6 +970,7 @@ impl LdapConnAsync {
                         if let Err(e) = tx.send((tag, controls)) {
                             warn!("ldap result send error: {:?}", e);
                         }
+                        single_done = true;
                         let mut msgmap = self.msgmap.lock().expect("msgmap mutex (stream rx)");
                         msgmap.1.remove(&id);
                     } else {
@@ -969,7 +981,9 @@ impl LdapConnAsync {
             #[cfg(ldap3_verif)]
             verif_trace(format!("drv maps {}", self.verif_maps()));
             if let LoopMode::SingleOp = mode {
-                break;
+                if single_done {
+                    break;
+                }
             }
         }
         Ok(self)
